@@ -68,6 +68,12 @@ Definition sh_Run (c : child) : value :=
   else if sh_CmdRan c then VFatal (sh_ExitStatus c)     (* mg.Fatalf(code, `running ... failed with exit code %d`) *)
   else VPlain.                                          (* fmt.Errorf(`failed to run ...`) *)
 
+(* the command ran (and exited 0) but the error of c.Run() is neither nil nor an *exec.ExitError (the copy of the child's
+   output into a non-file io.Writer failed): sh.CmdRan(err) = false (cmd.go:173 "return false"), sh.ExitStatus(err) = 1
+   (cmd.go:197), so Exec returns fmt.Errorf(`failed to run ...`) - a plain error, exactly as for a command that
+   could not be started *)
+Definition sh_Run_other : value := VPlain.
+
 (* ------------------------------------------------------------------ what a function body does *)
 Inductive body :=
 | BOk                                   (* return nil *)
@@ -76,7 +82,9 @@ Inductive body :=
 | BPanicErr                             (* panic(errors.New(..)) *)
 | BPanicFatal (c : Z)                   (* panic(mg.Fatal(c, ..)) *)
 | BPanicVal                             (* panic("..") / panic(42) *)
-| BSh (c : child)                       (* return sh.Run(cmd) where cmd behaves as c *)
+| BSh (c : child)                       (* return sh.Run(cmd) / RunV / RunWith / Output / Exec ... where cmd behaves as c *)
+| BShCopyErr                            (* return sh.Exec(env, w, w', cmd): the child exits 0 but copying its output into the
+                                           caller's io.Writer fails - c.Run() returns an error that is not an *exec.ExitError *)
 | BOsExit (c : Z)                       (* os.Exit(c) *)
 | BDeps (ser : bool) (ds : list body).  (* mg.Deps(ds..) / mg.CtxDeps (ser = false), mg.SerialDeps(ds..) (ser = true); return nil *)
 
@@ -140,6 +148,7 @@ Fixpoint run_body (b : body) : bres :=
   | BPanicFatal c => Panicked (VFatal c)
   | BPanicVal => Panicked VOther
   | BSh c => Returned (sh_Run c)
+  | BShCopyErr => Returned sh_Run_other
   | BOsExit c => Exited c
   | BDeps ser ds =>
       let rs := map run_body ds in
